@@ -168,8 +168,15 @@ pub fn run_agenda(s: &mut Src, ctx: &mut Ctx) -> Verdict {
         d
     });
 
-    let base = Instant::now();
     let mut ag = AdvancedAgenda::new();
+    // Creation instants are spread on one of four scales (a pure function of the case): the generated 1 us steps as they
+    // are, or stretched to 1 ms, 0.3 s or 0.7 s steps -- an activation may well have been created seconds after the
+    // agenda (the field is public, an `Instant` in the near future is a legal value). Order and ties are unchanged.
+    let scale: u64 = [1, 1, 1_000, 300_000, 700_000][case.ops.len() % 5];
+    if scale > 1 {
+        ctx.label("creation-instants-on-a-wide-scale");
+    }
+    let base = Instant::now();
     // an agenda that is not new (every third random case by length; a pure function of the case): 70 activations of
     // another rule were queued and taken off again, without being marked fired
     if ctx.exh == 0 && case.ops.len() % 3 == 0 {
@@ -200,7 +207,7 @@ pub fn run_agenda(s: &mut Src, ctx: &mut Ctx) -> Verdict {
                 if let Some(g) = actg {
                     a = a.with_activation_group(ACTG[*g].to_string());
                 }
-                a.created_at = base + Duration::from_nanos(*t);
+                a.created_at = base + Duration::from_nanos(*t * scale);
                 ag.add_activation(a);
                 let definite = !actg.map(|g| fired_groups.contains(&g)).unwrap_or(false);
                 if pending.iter().any(|p| p.t == *t) {
@@ -326,7 +333,7 @@ pub fn run_agenda(s: &mut Src, ctx: &mut Ctx) -> Verdict {
                         if a.rule_name != format!("r{}", it.rule)
                             || a.salience != it.sal
                             || a.agenda_group != GROUPS[it.group]
-                            || a.created_at != base + Duration::from_nanos(it.t)
+                            || a.created_at != base + Duration::from_nanos(it.t * scale)
                             || a.no_loop != case.no_loop[it.rule]
                             || a.activation_group.as_deref() != it.actg.map(|g| ACTG[g])
                         {
